@@ -21,6 +21,8 @@ CONSTANTS N,        \* number of validators, numbered 0..N-1
           MaxView,  \* views explored: 0..MaxView
           Height,   \* block index being agreed on (determines the primary rotation)
           InitSilentSets,   \* the possible initial silent sets (each of at most F members)
+          BugNoCommitLock,  \* named deviation: a validator may change view after it sent a commit
+          BugQuorum,        \* named deviation: M-1 commits are enough to accept a block
           MaxSilentChanges  \* how many times the adversary may change the silent set after the initial choice
 
 F == (N - 1) \div 3
@@ -70,7 +72,7 @@ CVs(v, w)     == {m.from : m \in {x \in Known(v) : x.type = "ChangeView" /\ x.vi
 \* the derived reactions of the service after any event (checkPrepare / checkCommit / checkChangeView)
 \* are folded into the event's action through these operators
 CanCommit(v, kn, rs, w)  == rs /\ Cardinality({m.from : m \in {x \in kn : x.type \in {"PrepareRequest", "PrepareResponse"} /\ x.view = w}}) >= M
-CanAccept(kn, rs, w)     == rs /\ Cardinality({m.from : m \in {x \in kn : x.type = "Commit" /\ x.view = w}}) >= M
+CanAccept(kn, rs, w)     == rs /\ Cardinality({m.from : m \in {x \in kn : x.type = "Commit" /\ x.view = w}}) >= (IF BugQuorum THEN M - 1 ELSE M)
 
 \* A timer fires.
 Timeout(v) ==
@@ -96,7 +98,7 @@ Deliver(m, v) ==
     /\ LET kn == Known(v) \cup {m}
            w  == view[v]
            \* change view first: M validators asked for a view above ours and we are not locked by a commit
-           nv == IF commitV[v] = None /\ \E x \in Views : x > w /\ Cardinality({y.from : y \in {z \in kn : z.type = "ChangeView" /\ z.view >= x}}) >= M
+           nv == IF (BugNoCommitLock \/ commitV[v] = None) /\ \E x \in Views : x > w /\ Cardinality({y.from : y \in {z \in kn : z.type = "ChangeView" /\ z.view >= x}}) >= M
                  THEN CHOOSE x \in Views : /\ x > w
                                            /\ Cardinality({y.from : y \in {z \in kn : z.type = "ChangeView" /\ z.view >= x}}) >= M
                                            /\ \A x2 \in Views : (x2 > x) => Cardinality({y.from : y \in {z \in kn : z.type = "ChangeView" /\ z.view >= x2}}) < M
@@ -106,7 +108,8 @@ Deliver(m, v) ==
            rs == IF changed THEN FALSE
                  ELSE reqSeen[v] \/ (m.type = "PrepareRequest" /\ m.view = w /\ m.from = PrimaryOf(w) /\ cvReq[v] <= w /\ commitV[v] = None)
            newResp == ~changed /\ rs /\ ~reqSeen[v]
-           cm == IF ~changed /\ commitV[v] = None /\ CanCommit(v, kn \cup (IF newResp THEN {Msg("PrepareResponse", v, w)} ELSE {}), rs, w) THEN w ELSE commitV[v]
+           cm == IF changed THEN (IF BugNoCommitLock THEN None ELSE commitV[v])
+                 ELSE IF commitV[v] = None /\ CanCommit(v, kn \cup (IF newResp THEN {Msg("PrepareResponse", v, w)} ELSE {}), rs, w) THEN w ELSE commitV[v]
            newCommit == cm # commitV[v]
            out == (IF newResp THEN {Msg("PrepareResponse", v, w)} ELSE {}) \cup (IF newCommit THEN {Msg("Commit", v, w)} ELSE {})
            acc == IF cm # None /\ cm = nv /\ CanAccept(kn \cup out, rs, nv) THEN nv ELSE None
